@@ -477,7 +477,7 @@ def fit_case(acc, case):
     mode = f"local={case['local']}"
     try:
         null = make_lf(null_name, case["tree"], aln)
-        set_null(null, null_name, rates, MPROBS[1], LENGTHS[0])
+        set_null(null, null_name, rates, None if codon else MPROBS[1], LENGTHS[0])
         alt = make_lf(alt_name, case["tree"], aln, **case.get("alt_kw", {}))
         alt.initialise_from_nested(null)
         before = float(alt.lnL)
@@ -541,7 +541,7 @@ def hypothesis_case(acc, case):
         return
     acc.outcome((what, case["max_evaluations"], round(lr, 3)))
     if not lr >= -2 * TOL:
-        acc.fail(f"hypothesis app: negative LR [local={case['local']}]", case,
+        acc.fail(f"hypothesis app {what}: negative LR [local={case['local']}]", case,
                  {"LR": lr, "null_lnL": float(res.null.lnL), "alt_lnL": float(res.alt.lnL), "models": what})
 
 
